@@ -240,4 +240,139 @@ theorem C17_sinkcoloring_exec_scale (c ns : Rat) (hc : 0 < c) (g : G) :
   | error e => rfl
   | ok r => rfl
 
+
+/-! ### the routers as a whole: a routed state scales with the unit, route points included -/
+
+/-- the state with all sizes, coordinates AND route points multiplied by c -/
+def scaleGP (c : Rat) (g : G) : G :=
+  { scaleG c g with edges := g.edges.map fun ed => { ed with pts := ed.pts.map (scalePt c) } }
+
+theorem scaleGP_node (c : Rat) (g : G) (n : Nat) : (scaleGP c g).node n = (scaleG c g).node n := rfl
+theorem scaleGP_layers (c : Rat) (g : G) : (scaleGP c g).layers = (scaleG c g).layers := rfl
+
+theorem scaleGP_edge (c : Rat) (g : G) (e : Nat) :
+    (scaleGP c g).edge e = { g.edge e with pts := (g.edge e).pts.map (scalePt c) } := by
+  simp only [scaleGP, G.edge, Array.getD_eq_getD_getElem?, Array.getElem?_map]
+  cases g.edges[e]? with
+  | none => simp [default, instInhabitedEdge.default]
+  | some ed => rfl
+
+theorem scaleGP_isFlat (c : Rat) (g : G) (e : Nat) : (scaleGP c g).isFlat e = g.isFlat e := by
+  simp only [G.isFlat, G.layerOf, scaleGP_edge, scaleGP_node, (scaleG_node c g _).2.2.2.2.2]
+
+theorem array_map_modify {α : Type} (f h h' : α → α) (hf : ∀ x, h (f x) = f (h' x)) (a : Array α) (i : Nat) :
+    (a.map f).modify i h = (a.modify i h').map f := by
+  apply Array.ext
+  · simp
+  · intro j h1 h2
+    simp only [Array.getElem_modify, Array.getElem_map]
+    split
+    · exact hf _
+    · rfl
+
+/-- writing c-scaled points to the scaled state = scaling the state the points were written to -/
+theorem setPts_scaleGP (c : Rat) (g : G) (e : Nat) (p : List Pt) :
+    setPts (scaleGP c g) e (p.map (scalePt c)) = scaleGP c (setPts g e p) := by
+  simp only [setPts, G.modEdge, scaleGP, scaleG]
+  congr 1
+  apply array_map_modify
+  intro x; rfl
+
+theorem straight_scaleGP (c : Rat) (g : G) (a b : Nat) : straight (scaleGP c g) a b = (straight g a b).map (scalePt c) :=
+  C17_straight_scale c g a b
+
+theorem straightStep_scale (c : Rat) (g : G) (r : Nat × List Nat) :
+    straightStep (scaleGP c g) r = (straightStep g r).map (scaleGP c) := by
+  unfold straightStep
+  simp only [scaleGP_isFlat, bind, Except.bind, pure, Except.pure]
+  split
+  · rfl
+  · simp only [Except.map, straight_scaleGP, setPts_scaleGP]
+
+theorem foldlM_scale {α : Type} (S : G → G) (step step' : G → α → M G) (h : ∀ g r, step' (S g) r = (step g r).map S) :
+    ∀ (l : List α) (g : G), l.foldlM step' (S g) = (l.foldlM step g).map S
+  | [], _ => rfl
+  | r :: l, g => by
+    simp only [List.foldlM_cons, bind, Except.bind, h]
+    cases step g r with
+    | error e => rfl
+    | ok g' => exact foldlM_scale S step step' h l g'
+
+/-- **C17, Straight router as a whole** -/
+theorem C17_routeStraight_scale (c : Rat) (g : G) (routes : List (Nat × List Nat)) :
+    routeStraight (scaleGP c g) routes = (routeStraight g routes).map (scaleGP c) :=
+  foldlM_scale (scaleGP c) straightStep straightStep (straightStep_scale c) routes g
+
+theorem mapM_bend_scale (c : Rat) (g : G) : ∀ (l : List Nat),
+    l.mapM (nonTerminalPoint (scaleGP c g)) = (l.mapM (nonTerminalPoint g)).map (List.map (scalePt c))
+  | [] => rfl
+  | n :: l => by
+    have h1 : nonTerminalPoint (scaleGP c g) n = (nonTerminalPoint g n).map (scalePt c) := C17_bend_scale c g n
+    simp only [List.mapM_cons, bind, Except.bind, h1, mapM_bend_scale c g l]
+    cases nonTerminalPoint g n with
+    | error e => rfl
+    | ok p =>
+      cases List.mapM (nonTerminalPoint g) l with
+      | error e => rfl
+      | ok ps => rfl
+
+theorem polylineStep_scale (c : Rat) (g : G) (r : Nat × List Nat) :
+    polylineStep (scaleGP c g) r = (polylineStep g r).map (scaleGP c) := by
+  unfold polylineStep
+  simp only [scaleGP_isFlat]
+  split
+  · rfl
+  · split
+    · simp only [pure, Except.pure, Except.map, straight_scaleGP, setPts_scaleGP]
+    · simp only [bind, Except.bind, mapM_bend_scale]
+      cases List.mapM (nonTerminalPoint g) r.2.tail.dropLast with
+      | error e => rfl
+      | ok mids =>
+        have hs : startPoint (scaleGP c g) r.2.head! = scalePt c (startPoint g r.2.head!) := C17_startPoint_scale c g _
+        have he : endPoint (scaleGP c g) r.2.getLast! = scalePt c (endPoint g r.2.getLast!) := C17_endPoint_scale c g _
+        simp only [Except.map, pure, Except.pure, scaleGP_edge, hs, he]
+        rw [← setPts_scaleGP]
+        simp only [List.map_append, List.map_cons, List.map_nil]
+
+/-- **C17, Polyline router as a whole** -/
+theorem C17_routePolyline_scale (c : Rat) (g : G) (routes : List (Nat × List Nat)) :
+    routePolyline (scaleGP c g) routes = (routePolyline g routes).map (scaleGP c) :=
+  foldlM_scale (scaleGP c) polylineStep polylineStep (polylineStep_scale c) routes g
+
+theorem orthoPoints_scaleGP (c ls layerh : Rat) (g : G) : ∀ (ns : List Nat),
+    orthoPoints (scaleGP c g) ls layerh ns = orthoPoints (scaleG c g) ls layerh ns
+  | [] => rfl
+  | [_] => rfl
+  | a :: b :: rest => by
+    simp only [orthoPoints, orthoPoints_scaleGP c ls layerh g (b :: rest)]
+    rfl
+
+theorem orthoStep_scale (c ls : Rat) (hc : 0 < c) (g : G) (r : Nat × List Nat) :
+    orthoStep (c * ls) (scaleGP c g) r = (orthoStep ls g r).map (scaleGP c) := by
+  unfold orthoStep
+  simp only [scaleGP_isFlat]
+  split
+  · rfl
+  · have hal := C17_aligned_scale c hc g (g.edge r.1).src (g.edge r.1).dst
+    have hsrc : ((scaleGP c g).edge r.1).src = (g.edge r.1).src := by rw [scaleGP_edge]
+    have hdst : ((scaleGP c g).edge r.1).dst = (g.edge r.1).dst := by rw [scaleGP_edge]
+    simp only [hsrc, hdst, scaleGP_node, hal]
+    split
+    · simp only [pure, Except.pure, Except.map, straight_scaleGP, setPts_scaleGP]
+    · have hlh : layerH (scaleGP c g) ((scaleGP c g).layerOf (g.edge r.1).src) = c * layerH g (g.layerOf (g.edge r.1).src) := by
+        have : (scaleGP c g).layerOf (g.edge r.1).src = g.layerOf (g.edge r.1).src := by
+          simp only [G.layerOf, scaleGP_node, (scaleG_node c g _).2.2.2.2.2]
+        rw [this]; exact C17_layerH_scale c g _
+      have hop : orthoPoints (scaleGP c g) (c * ls) (c * layerH g (g.layerOf (g.edge r.1).src)) r.2 =
+          (orthoPoints g ls (layerH g (g.layerOf (g.edge r.1).src)) r.2).map (scalePt c) := by
+        rw [orthoPoints_scaleGP]; exact C17_orthoPoints_scale c ls _ g r.2
+      simp only [pure, Except.pure, Except.map, hlh, hop, scaleGP_edge]
+      rw [← setPts_scaleGP]
+      simp only [List.map_append]
+
+/-- **C17, Orthogonal router as a whole** -/
+theorem C17_routeOrtho_scale (c ls : Rat) (hc : 0 < c) (g : G) (routes : List (Nat × List Nat)) :
+    routeOrtho (c * ls) (scaleGP c g) routes = (routeOrtho ls g routes).map (scaleGP c) :=
+  foldlM_scale (scaleGP c) (orthoStep ls) (orthoStep (c * ls)) (orthoStep_scale c ls hc) routes g
+
 end Autog
